@@ -255,7 +255,7 @@ exactly the given targets. -/
 theorem addF_creates {s : State} (hs : HInv s) (g : Nat) (ts : List Nat) (u : Bool) (d : Option (List Nat))
     (hok : (step Cfg.fixed s (.at g (.addF ts u d))).2 = .ok) :
     ∀ b ∈ view Cfg.fixed s g, ∀ a ∈ view Cfg.fixed (step Cfg.fixed s (.at g (.addF ts u d))).1 g,
-      CreatedF b a ts := by
+      CreatedF b a ⟨ts, d.getD [1]⟩ := by
   intro b hb a ha
   cases h : s.objs[g]? with
   | none => rw [view, h] at hb; cases hb
@@ -275,7 +275,7 @@ theorem addF_creates {s : State} (hs : HInv s) (g : Nat) (ts : List Nat) (u : Bo
     · rw [e] at hst; cases hst
     · rw [e]
       have hkey := nameF_not_key hl
-      refine ⟨nameF Cfg.fixed (localOf s o), ?_, nameF_fresh _, ?_, (nameF Cfg.fixed (localOf s o), ⟨ts, d.getD [1]⟩), ?_, rfl, sameSet_refl _⟩
+      refine ⟨nameF Cfg.fixed (localOf s o), ?_, nameF_fresh _, ?_, (nameF Cfg.fixed (localOf s o), ⟨ts, d.getD [1]⟩), ?_, rfl, sameEntry_refl _⟩
       · simp [lview, addFok, dKeys_dSet]
       · simp [lview, addFok, mem_insertNew]
       · simp [lview, addFok, mem_dSet_new hkey]
@@ -326,7 +326,7 @@ theorem targets_stable_step {s : State} (hs : HInv s) (g : Nat) (lop : LOp) :
     rw [ha'] at ha
     cases hb; cases ha
     obtain ⟨k1, k2⟩ := stepLocal_keeps (hs.linv g o h) lop
-    exact ⟨fun p hp hne => ⟨p, k1 p hp hne, rfl, sameSet_refl _⟩, fun p hp hne => k2 p hp hne⟩
+    exact ⟨fun p hp hne => ⟨p, k1 p hp hne, rfl, sameEntry_refl _⟩, fun p hp hne => k2 p hp hne⟩
 
 /-- a copy shows exactly what its original shows at the moment of the copy -/
 theorem copy_same_view {s : State} (hs : HInv s) (g : Nat) (b : View) (hb : view Cfg.fixed s g = some b) :
